@@ -6,7 +6,7 @@
    (key, cell) entries; [ord] is Go's map iteration order per round (any permutation); [breaker] the optional tie-breaker
    (any function). *)
 From Coq Require Import List ZArith Bool Permutation Sorted.
-From V Require Import Model.Dp Model.Clique Proofs.DpKnapsack Proofs.DpSolvers Proofs.DpBest.
+From V Require Import Model.Dp Model.Clique Proofs.DpKnapsack Proofs.DpSolvers Proofs.DpBest Proofs.DpJudge Proofs.DpPool.
 Import ListNotations.
 Local Open Scope Z_scope.
 
@@ -49,3 +49,44 @@ Print Assumptions c18_best_spec.
 Theorem c18_best_over_spec : forall maxV keys, (forall k, In k keys -> maxV - k < maxint) -> is_best_over maxV keys (best_over maxV keys).
 Proof. exact best_over_spec. Qed.
 Print Assumptions c18_best_over_spec.
+
+(* ---- the judges that Run/C18.v applies to the implementation's output mean the property, and accept the model ---- *)
+Theorem c18_knap_judge_meaning : forall W items r, knap_ok W items r = true <->
+  valid items (length items) W r /\ forall s, valid items (length items) W s -> value items s <= value items r.
+Proof. exact knap_ok_iff. Qed.
+Print Assumptions c18_knap_judge_meaning.
+Theorem c18_knap_judge_accepts_model : forall brk W items, knap_ok W items (knapsack brk W items) = true.
+Proof. exact knap_ok_model. Qed.
+Print Assumptions c18_knap_judge_accepts_model.
+
+Theorem c18_solvers_judge_meaning : forall maxV allow vals dp, solvers_ok maxV allow vals dp = true <-> solvers_prop maxV allow vals dp.
+Proof. exact solvers_ok_iff. Qed.
+Print Assumptions c18_solvers_judge_meaning.
+Theorem c18_solvers_judge_accepts_model : forall vals, Forall (fun v => 0 < v) vals ->
+  forall brk maxV allow ord, (forall k dp, Permutation (ord k dp) dp) -> 0 <= maxV ->
+  solvers_ok maxV allow vals (find_dp_solvers brk maxV allow ord vals) = true.
+Proof. exact solvers_ok_model. Qed.
+Print Assumptions c18_solvers_judge_accepts_model.
+
+Theorem c18_best_judge_meaning : forall q keys r, best_ok q keys r = true <-> is_best q keys r.
+Proof. exact best_ok_iff. Qed.
+Print Assumptions c18_best_judge_meaning.
+Theorem c18_best_over_judge_meaning : forall q keys r, best_over_ok q keys r = true <-> is_best_over q keys r.
+Proof. exact best_over_ok_iff. Qed.
+Print Assumptions c18_best_over_judge_meaning.
+
+(* ---- pool privacy (buffer-level model hsolve): in every state between rounds no two live cells share a buffer and no
+   recycled slice points into a live cell's buffer; for every tie-breaker, growth policy, map order and commit order ---- *)
+Theorem c18_cells_private : forall brk grow maxV allow ord pord,
+  (forall k dp, Permutation (ord k dp) dp) -> (forall L, Permutation (pord L) L) ->
+  forall vals n, let st := hsolve brk grow maxV allow ord pord vals n in private (s_heap st) (s_dp st) (s_pool st).
+Proof. exact cells_private. Qed.
+Print Assumptions c18_cells_private.
+(* and the buffer-level model returns the value-level model's map *)
+Theorem c18_hsolve_erase : forall brk grow maxV allow ord pord,
+  (forall k dp, Permutation (ord k dp) dp) -> (forall L, Permutation (pord L) L) ->
+  forall vals ord', (forall k heap dp, ord' k (herase heap dp) = herase heap (ord k dp)) ->
+  forall n, let st := hsolve brk grow maxV allow ord pord vals n in
+  (herase (s_heap st) (s_dp st), s_ovf st) = solve brk maxV allow ord' vals n.
+Proof. exact hsolve_erase. Qed.
+Print Assumptions c18_hsolve_erase.
